@@ -129,7 +129,8 @@ class Repo:
                     try:
                         mi.consts[t.id] = ast.literal_eval(node.value)
                     except Exception:
-                        pass
+                        if ast.unparse(node.value) == "type(None)":
+                            mi.consts[t.id] = type(None)
         self._index_body(mi, mi.tree.body, prefix="", cls=None)
 
     def _index_body(self, mi, body, prefix, cls):
